@@ -4,6 +4,7 @@ import CpModel.DispatchIO
 import CpModel.Config
 import CpModel.ConfigHist
 import CpModel.ConfigNs
+import CpModel.ConfigUpdate
 import CpModel.Unrepr
 import CpModel.UnreprIO
 /-!
@@ -19,6 +20,8 @@ import CpModel.UnreprIO
     nseff <request|response|hooks|error_page|server|engine|log|checker> <key> <val> <aux>
                                → A:<target>:<attr>:<val> | I:<target>:<key>:<val> | E:<code|D>:<val> | H:<point> | S:<target>:<0|1> | R | ?
           aux = hook points `p+p…` (hooks), plugins `name=0|1+…` (engine), `-` otherwise
+    cfgupd <global conf before> <F|S> <conf | sections>   → `K=<global config after> NS=<entries handed to the namespaces>` | `ERR` | `?`
+          (cherrypy.config.update of a flat dict (F) or of an INI file / dict of sections (S); live environments table)
     fc <sections> <path> <key> <default: - | val>        → `V=<val>` | `V=-`
     build <ast>                                            → `ok <val>` | `err <class>`      (reprconf._Builder)
     toast <val>                                            → `<ast>`                         (AST of repr(val))
@@ -73,6 +76,18 @@ def step (line : String) : String :=
     | some handlers, some c =>
       let (ev, p) := ConfigNs.nsCall (c.getD []) handlers
       s!"EV={if ev.isEmpty then "-" else ",".intercalate (ev.map showEv)} P={if p then 1 else 0}"
+    | _, _ => "bad-op"
+  | ["cfgupd", cfg, form, payload] =>
+    let input : Option ConfigUpdate.Input :=
+      if form == "F" then (parseConf payload).map fun c => .flat (c.getD [])
+      else if form == "S" then (parseList ";" parseSection payload).map .sections
+      else none
+    match parseConf cfg, input with
+    | some c, some i =>
+      match ConfigUpdate.update ConfigUpdate.liveEnvs (c.getD []) i with
+      | none => "?"
+      | some (.error _) => "ERR"
+      | some (.ok r) => s!"K={showConf (toDict r.config)} NS={showConf (toDict r.handed)}"
     | _, _ => "bad-op"
   | ["nseff", which, key, val, aux] =>
     match parseName key, parseVal val with
